@@ -100,18 +100,28 @@ Proof.
   destruct w; [destruct (buffer_segs ps pos _)|]; simpl; auto.
 Qed.
 
-Lemma step_done_length : forall c s o, length (s_done (fst (step c s o))) = length (s_done s).
+Lemma step_done_length : forall c s o, length (s_done (fst (step c s o))) = length (s_done s) \/
+  (o = OpReopen /\ s_done (fst (step c s o)) = repeat false (N.to_nat (size_chunks c))).
 Proof.
   intros c s o. destruct o; simpl; try rewrite do_chunk_done; auto.
-  destruct (_ || _); simpl; auto.
-  destruct (nth _ _ _); simpl; auto.
-  destruct (inc_completed _ _ _); simpl; apply set_nth_length.
+  - destruct (_ || _); simpl; auto.
+    destruct (nth _ _ _); simpl; auto.
+    destruct (inc_completed _ _ _); simpl; left; apply set_nth_length.
+  - destruct (_ <? _); simpl; auto. left. apply set_nth_length.
+  - destruct (nth_error _ _); simpl; auto. destruct (f_pad _); simpl; auto.
 Qed.
 
-Lemma run_done_length : forall c ops s, length (s_done (fst (run c s ops))) = length (s_done s).
+(* the bitfield always has one bit per piece *)
+Lemma run_done_length : forall c ops s, N.of_nat (length (s_done s)) = size_chunks c ->
+  N.of_nat (length (s_done (fst (run c s ops)))) = size_chunks c.
 Proof.
-  induction ops; intros s; simpl; auto. rewrite IHops. apply step_done_length.
+  induction ops; intros s H; simpl; auto. apply IHops.
+  destruct (step_done_length c s a) as [E|[_ E]]; rewrite E; auto.
+  rewrite repeat_length. lia.
 Qed.
+
+Lemma init_done_length : forall c, N.of_nat (length (s_done (init_state c))) = size_chunks c.
+Proof. intros. simpl. rewrite repeat_length. lia. Qed.
 
 (* after ANY operation list, completed_bytes is exactly the sum of the sizes of the set pieces,
    left_bytes is the rest of the stream, and neither raises *)
@@ -124,7 +134,7 @@ Lemma completed_bytes_exact : forall cs lay ops, cfg_ok cs lay ->
 Proof.
   intros cs lay ops (H1 & H2 & H3 & H4 & H5) c s.
   apply (ProofsA.completed_bytes_exact c); auto.
-  unfold s. rewrite run_done_length. simpl. rewrite repeat_length. lia.
+  unfold s. apply run_done_length. apply init_done_length.
 Qed.
 
 (* mark_completed sets exactly the requested bit, only when it is a valid unset piece *)
